@@ -367,6 +367,13 @@ def run(job, seed):
         nontriv = len(f) >= 2 or any(n in succ for n in f)
         acc.case(tool, nontriv)
         case = {'defaults': kind, 'file': f, 'tool': tool}
+        # services hand their defaults over as a list or as a one-shot
+        # iterator (itertools.chain over their modules): every other file
+        one_shot = idx % 2 == 1
+
+        def handed(seq):
+            return iter(list(seq)) if one_shot else seq
+        case['defaults_as_iterator'] = one_shot
         vclass = '+'.join(sorted(set(vks.values()))) or 'empty-file'
         nclass = '+'.join(sorted({'deprecated' if n in succ else
                                   'registered' if n in reg_names else
@@ -380,7 +387,7 @@ def run(job, seed):
         try:
             if tool == 'convert':
                 w.write('in.json', json.dumps(f))
-                with world.entry_points(policies={'ns': defaults}):
+                with world.entry_points(policies={'ns': handed(defaults)}):
                     err, _ = run_tool(
                         gen.convert_policy_json_to_yaml,
                         ['--namespace', 'ns', '--policy-file',
@@ -411,7 +418,8 @@ def run(job, seed):
                 ns_args = []
                 for n in sorted(nss):
                     ns_args += ['--namespace', n]
-                with world.entry_points(policies=nss):
+                with world.entry_points(policies={
+                        n: handed(v) for n, v in nss.items()}):
                     err, _ = run_tool(
                         gen.upgrade_policy,
                         ['--policy', w.path('in.yaml')] + ns_args +
